@@ -16,6 +16,7 @@ const (
 
 func checkC19(r *Run) {
 	P := r.P
+	passphraseKDF(r, "C19-R5")
 	r.NotDecided("cryptographic binding of signatures to key and message (ed25519/secp256k1 libraries) and of the armor encryption (bcrypt/xsalsa20)")
 	r.NotDecided("export/import round-trip equality (value-level; decided: what is written is the decrypted key re-encrypted, under its own address, never over an existing one)")
 
